@@ -320,7 +320,7 @@ def phase_mc(tier):
 def package_mc(tier):
     """exhaustive TLC runs of the Package controller's unpack / deploy / record cycle (spec/PKOPackage.tla, one action per API call)"""
     q = tier == 'quick'
-    c = dict(Specs='MCSpecs', Class='MCClass', Atomic='FALSE', MaxEdit=3 if q else 4, MaxFault=2 if q else 3, MaxTouch=1)
+    c = dict(Specs='MCSpecs', Class='MCClass', Atomic='FALSE', CopyEnv='TRUE', MaxEdit=3 if q else 4, MaxFault=2 if q else 3, MaxTouch=1)
     safety = ['TypeOK', 'Inv_C16_NoDeployUnlessAdmissible', 'Inv_C09_PackagePaused', 'Inv_C16_NoRepull', 'Inv_C16_RecordJustified']
     return [dict(name='package-asfound', kind='gen', module='MC_PKOPackage', constants=c, invariants=safety, timeout=3000),
             # deploy + record as one step: everything holds, incl. TemplateIsRender and convergence under fairness
@@ -329,6 +329,17 @@ def package_mc(tier):
             # negative control: the known finding C16 (template deployed, record fails, spec reverted) at the design level
             dict(name='package-asfound-negctl', kind='gen', module='MC_PKOPackage', constants=c, invariants=['Inv_C16_TemplateIsRender'],
                  expect_violation='Inv_C16_TemplateIsRender')]
+
+
+def package_env_mc(tier):
+    """C13 at the design level: the environment as render input of the Package controller (shared sink, spec/PKOPackage.tla)"""
+    q = tier == 'quick'
+    c = dict(Specs='MCSpecs', Class='MCClass', Atomic='TRUE', CopyEnv='TRUE', MaxEdit=2 if q else 3, MaxFault=1 if q else 2, MaxTouch=2)
+    return [dict(name='package-env-intended', kind='gen', module='MC_PKOPackage', constants=c, invariants=['TypeOK', 'Inv_C13_EnvIsOwn'],
+                 props=['Act_C13_UnchangedKeepsTemplate'], timeout=3000),
+            # negative control: the sink hands out a shallow copy (seeded change C13 / C18 round 4)
+            dict(name='package-env-negctl', kind='gen', module='MC_PKOPackage', constants=dict(c, CopyEnv='FALSE'), invariants=['Inv_C13_EnvIsOwn'],
+                 expect_violation='Inv_C13_EnvIsOwn')]
 
 
 def template_mc(tier):
@@ -465,7 +476,7 @@ CHECKS = {
                          driver=['c12-real', '-steps', '2' if tier == 'quick' else '3']),
                     dict(name='c12-stress', module='TraceDynCache', shards=4 if tier == 'quick' else 14,
                          driver=['c12-stress', '-n', '40' if tier == 'quick' else '2000', '-steps', '60', '-seed', str(seed)])]),
-    'C13': dict(level='model_checking', invariants=INV['C13'], module='TraceRender',
+    'C13': dict(level='model_checking', invariants=INV['C13'], module='TraceRender', mc=package_env_mc,
                 assumptions=['abstract package domain: 6 pooled file paths (plain, nested, templates with include helper, conditional path), 1-3 documents each with phase / CEL attributes',
                              'each package is rendered repeatedly in one process (Go randomises map iteration per range loop)'],
                 level_text='Every abstract package (all subsets of the file pool exhaustively, document attributes seeded) is concretised into real package files and rendered repeatedly through the real structural loader, RenderPackageInstance, RenderObjectSetTemplateSpec and FNV hash; TLC compares the outcome with the TLA+ function Render!Expected, checks determinism and the template function allow list.',
